@@ -15,6 +15,7 @@ from pddl_plus_parser.models.numerical_expression import (
 from pddl_plus_parser.models.pddl_action import Action
 from pddl_plus_parser.models.pddl_domain import Domain
 from pddl_plus_parser.models.pddl_function import PDDLFunction
+from pddl_plus_parser.models.pddl_object import PDDLObject
 from pddl_plus_parser.models.pddl_precondition import CompoundPrecondition
 from pddl_plus_parser.models.pddl_predicate import Predicate, GroundedPredicate
 from pddl_plus_parser.models.pddl_state import State
@@ -71,18 +72,22 @@ class GroundedEffect:
             )
 
     def antecedents_hold(
-        self, state: State, allow_inapplicable_actions: bool = False
+        self,
+        state: State,
+        allow_inapplicable_actions: bool = False,
+        problem_objects: Optional[Dict[str, PDDLObject]] = None,
     ) -> bool:
         """Checks whether the antecedents of the effect hold in the given state.
 
         :param state: the state that the effect is applied to.
         :param allow_inapplicable_actions: whether to allow inapplicable actions.
+        :param problem_objects: the objects of the problem (needed for universally quantified antecedents).
         :return: whether the antecedents hold in the given state.
         """
         if self.grounded_antecedents is None or allow_inapplicable_actions:
             return True
 
-        return self.grounded_antecedents.is_applicable(state)
+        return self.grounded_antecedents.is_applicable(state, problem_objects)
 
     def _apply_discrete_effects(
         self, next_state_predicates: Dict[str, Set[GroundedPredicate]]
